@@ -352,6 +352,8 @@ class Check:
         }
         if self.exhaustive is not None:
             cov["exhaustive"] = self.exhaustive
+            cov["exhaustive_scope"] = ("the bounded model of the T1/T2 runs listed in tlc_runs was explored completely and every "
+                                       "exported case was replayed into the code; the T3 part (random/large inputs) is sampled")
         cov.update(self.extra)
         ev = {
             "property_id": self.pid, "tier": self.tier, "seed": self.seed, "level": self.level,
